@@ -13,8 +13,10 @@ import traceback
 from . import build, runner
 
 VERIF = build.VERIF
-EVIDENCE_DIR = os.path.join(VERIF, "evidence")
-REPLAY_DIR = os.path.join(VERIF, "replays")
+# FSV_REPO / FSV_CACHE / FSV_OUT redirect the source tree, the build cache and the evidence + replay files; they are used
+# only to try the checks on scratch copies (seeded changes) without touching /repo or the committed evidence
+EVIDENCE_DIR = os.path.join(os.environ["FSV_OUT"], "evidence") if os.environ.get("FSV_OUT") else os.path.join(VERIF, "evidence")
+REPLAY_DIR = os.path.join(os.environ["FSV_OUT"], "replays") if os.environ.get("FSV_OUT") else os.path.join(VERIF, "replays")
 KNOWN_FILE = os.path.join(VERIF, "known_findings.json")
 NPROC = int(os.environ.get("FSV_JOBS", "16"))
 
